@@ -7,6 +7,7 @@ import (
 
 	"github.com/mithrandie/csvq/lib/parser"
 	"github.com/mithrandie/csvq/lib/value"
+	"github.com/mithrandie/csvq/lib/vhook"
 
 	"github.com/mithrandie/ternary"
 )
@@ -154,6 +155,7 @@ func InnerJoin(ctx context.Context, scope *ReferenceScope, view *View, joinView 
 			}
 		}()
 
+		vhook.Yield("join.start", thIdx)
 		ctx := ctx
 		start, end := gm.RecordRange(thIdx)
 		records := make(RecordSet, 0, end-start)
@@ -167,6 +169,7 @@ func InnerJoin(ctx context.Context, scope *ReferenceScope, view *View, joinView 
 
 	InnerJoinLoop:
 		for i := start; i < end; i++ {
+			vhook.Yield("join.row", thIdx)
 			for j := 0; j < joinView.RecordLen(); j++ {
 				if gm.HasError() {
 					break InnerJoinLoop
@@ -255,6 +258,7 @@ func OuterJoin(ctx context.Context, scope *ReferenceScope, view *View, joinView 
 			}
 		}()
 
+		vhook.Yield("join.start", thIdx)
 		ctx := ctx
 		start, end := gm.RecordRange(thIdx)
 		records := make(RecordSet, 0, end-start)
@@ -276,6 +280,7 @@ func OuterJoin(ctx context.Context, scope *ReferenceScope, view *View, joinView 
 
 	OuterJoinLoop:
 		for i := start; i < end; i++ {
+			vhook.Yield("join.row", thIdx)
 			match := false
 			for j := 0; j < joinView.RecordLen(); j++ {
 				if gm.HasError() {
